@@ -61,6 +61,12 @@ def cases(rng, tier):
     for how in ("flip-end-header", "flip-start-header", "cut-tail", "text-file"):
         out.append({"kind": "append-bad", "how": how})
     out.append({"kind": "volume-zero"})
+    # fifth hunt: a tree with a dangling link (and one pointing at itself); a tree with a FIFO; volume sets smaller than the signature header; year 9999 east of UTC
+    out.append({"kind": "odd-tree", "what": "dangling-links"})
+    out.append({"kind": "odd-tree", "what": "fifo"})
+    for v in ("8", "16b", "5", "31"):
+        out.append({"kind": "tiny-volumes", "size": v})
+    out.append({"kind": "far-future"})
     return out
 
 
@@ -273,6 +279,69 @@ def run_case(case):
             if rc == 0 or len(left) > 3:
                 viol.append({"key": "volume-size-zero", "what": "py7zr c -v 0 exits %s and leaves %d files" % (rc, len(left))})
             sample = {"kind": "volume-zero", "rc": rc}
+        elif case["kind"] == "odd-tree":
+            work = os.path.join(d, "w")
+            os.makedirs(os.path.join(work, "tree", "sub"))
+            for p_ in ("a.txt", "sub/z.txt"):
+                with open(os.path.join(work, "tree", p_), "wb") as f:
+                    f.write(p_.encode() * 9)
+            if case["what"] == "dangling-links":
+                os.symlink("a.txt", os.path.join(work, "tree", "good"))
+                os.symlink("not-there-yet", os.path.join(work, "tree", "dangling"))
+                os.symlink("loop", os.path.join(work, "tree", "loop"))
+                rc, so, se = _cli(["c", "o.7z", "tree"], work, obs)
+                rc2, so2, se2 = _cli(["x", "o.7z", "out"], work, obs) if rc == 0 else ("-", "", "")
+                got = pz.walk_tree(os.path.join(work, "out", "tree")) if os.path.isdir(os.path.join(work, "out", "tree")) else {}
+                want = pz.walk_tree(os.path.join(work, "tree"))
+                obs["trees_round_tripped"] += 1
+                if rc != 0 or rc2 != 0 or {k: (v["kind"], v.get("target"), v.get("crc")) for k, v in got.items()} != {k: (v["kind"], v.get("target"), v.get("crc")) for k, v in want.items()}:
+                    viol.append({"key": "c-x-tree-with-dangling-link", "what": "tree with a dangling link and a link to itself: c exits %s (%s), x exits %s; reproduced entries %r of %r" % (
+                        rc, (se or so).strip().splitlines()[-1][:120] if (se or so).strip() else "", rc2, sorted(got), sorted(want))})
+            else:
+                os.mkfifo(os.path.join(work, "tree", "pipe"))
+                rc, so, se = _cli(["c", "o.7z", "tree"], work, obs)
+                rc2 = "-"
+                if rc == 0:
+                    # exit 0 says the tree is in the archive: then x must give it back, entry for entry (a FIFO cannot be: so 0 is a lie)
+                    viol.append({"key": "c-exits-0-leaving-entry-out", "what": "tree holding a FIFO: py7zr c exits 0; the archive lists %r" % (py7zr.SevenZipFile(os.path.join(work, "o.7z")).getnames(),)})
+            cells.add("odd-tree|%s|rc%s" % (case["what"], rc))
+            sample = {"kind": "odd-tree", "what": case["what"], "rc": rc}
+        elif case["kind"] == "tiny-volumes":
+            work = os.path.join(d, "w")
+            os.makedirs(os.path.join(work, "tree"))
+            for i in range(3):
+                with open(os.path.join(work, "tree", "f%d.txt" % i), "wb") as f:
+                    f.write(b"member %d " % i * 20)
+            rc, so, se = _cli(["c", "-v", case["size"], "vol.7z", "tree"], work, obs)
+            obs["volume_sizes_tried"] += 1
+            cells.add("tiny-volumes|%s|rc%s" % (case["size"], rc))
+            if rc == 0:
+                rc2, so2, se2 = _cli(["l", "vol.7z.0001"], work, obs)
+                missing = [n for n in ("tree/f0.txt", "tree/f1.txt", "tree/f2.txt") if n not in so2]
+                if rc2 != 0 or missing:
+                    viol.append({"key": "l-fails-on-own-volumes", "what": "py7zr c -v %s exits 0 (%d volumes); py7zr l vol.7z.0001 exits %s: %s" % (
+                        case["size"], len([x for x in os.listdir(work) if x.startswith("vol.7z.")]), rc2, (se2 or so2).strip().splitlines()[-1][:150] if (se2 or so2).strip() else "")})
+            sample = {"kind": "tiny-volumes", "size": case["size"], "rc": rc}
+        elif case["kind"] == "far-future":
+            work = os.path.join(d, "w")
+            os.mkdir(work)
+            mem = [{"name": "far.txt", "kind": "file", "data": b"x" * 5, "attributes": 0x20, "mtime": 2650467743999999999}]
+            from vf.ref7z import writer as W_
+
+            with open(os.path.join(work, "far.7z"), "wb") as f:
+                f.write(W_.build(mem, {"folders": [{"n": 1, "chain": [{"m": "COPY"}], "crc": "sub"}], "header": "raw"}))
+            res = {}
+            for tz in ("UTC", "Asia/Tokyo", "America/New_York"):
+                os.environ["TZ"] = tz
+                try:
+                    rc, so, se = _cli(["l", "far.7z"], work, obs)
+                finally:
+                    os.environ.pop("TZ", None)
+                res[tz] = rc
+                if rc != 0 or "far.txt" not in so:
+                    viol.append({"key": "l-fails-on-far-future-time", "what": "member dated 9999-12-31 23:59:59 UTC, TZ=%s: py7zr l exits %s: %s" % (tz, rc, (se or so).strip().splitlines()[-1][:150] if (se or so).strip() else "")})
+            cells.add("far-future|%r" % sorted(res.items()))
+            sample = {"kind": "far-future", "rc": res}
         elif case["kind"] == "fixture":
             for cmd in ("t", "x"):
                 args = [cmd, case["path"]] + ([os.path.join(d, "fx")] if cmd == "x" else [])
